@@ -2,7 +2,6 @@ package main
 
 import (
 	"fmt"
-	"sort"
 	"strings"
 
 	"golang.org/x/tools/go/ssa"
@@ -11,10 +10,10 @@ import (
 func init() {
 	register(&propDef{
 		id: "C16", run: runC16, minOblig: 6,
-		explanation: "Decides the 'error, never a panic' clause of C16 for scrypt.Key: (1) the explicit panic sites statically reachable from scrypt.Key inside the module are enumerated and must be exactly the tabled one (x/crypto/pbkdf2.Key's panic(err)); (2) for a grid of boundary parameter values (N, r, p, keyLen around 0, 1, powers of two, the 2^30 / maxInt limits and the RFC 7914 dkLen limit) the guard conditions of scrypt.Key are partially evaluated with Go's fixed-width arithmetic and each reachable call of pbkdf2.Key must receive a key length that evaluates to a value in 1..(2^32-1)*32 — the precondition under which crypto/pbkdf2.Key returns no error; (3) every return with a non-nil error returns a nil slice. NOT decided: RFC 7914 output values, memory exhaustion, implicit runtime panics in smix.",
-		assumptions: []string{"crypto/pbkdf2.Key errors only for keyLength <= 0 or > (2^32-1)*hLen outside FIPS-140-only mode (stdlib contract)", "static call graph (no interface calls on this path)"},
+		explanation: "Decides the 'error, never a panic' clause of C16 for scrypt.Key by evaluating Key, for each of 8019 boundary parameter combinations (N, r, p, keyLen around 0, 1, powers of two, the 2^30 / maxInt limits and the RFC 7914 dkLen limit; parameters taken by position), with Go's fixed-width arithmetic, interprocedurally: module callees (guard helpers returning error/bool/tuples, PBKDF2 wrappers, read-only closures, x/crypto/pbkdf2.Key itself) are evaluated in their own frame with the evaluated arguments, error values are tracked as nil/non-nil, math/bits is folded, and only the blocks feasible for the point count. Facts decided, independent of how the code is factored: (1) every explicit panic statically reachable from Key is confined to a failed crypto/pbkdf2.Key call (behind its err != nil, also through an error parameter fed only by that result) and is infeasible on every grid point; (2) every feasible call of crypto/pbkdf2.Key gets a key length in 1..(2^32-1)*32 — the precondition under which it returns no error — and on accepted points of the documented domain exactly the RFC 7914 lengths p*128*r (B) and keyLen (output) occur, both at least once; (3) no feasible integer division has divisor 0 and no feasible make() a negative length in Key and the helpers evaluated; (4) every grid point outside the documented domain (N not a power of two > 1; r or p <= 0; r*p >= 2^30 or a buffer size beyond maxInt, computed exactly; keyLen outside 1..(2^32-1)*32) has no feasible return with a nil or undecided error; (5) every feasible return with a non-nil error returns a nil slice (per rejection class, plus statically for every return whose error is never nil). A guard the evaluator cannot fold leaves both edges feasible and is reported, never passed. NOT decided: RFC 7914 output values, that the returned slice is the final PBKDF2 output, memory exhaustion, index/slice-bounds panics in smix and its helpers, loops (not unrolled).",
+		assumptions: []string{"crypto/pbkdf2.Key errors only for keyLength <= 0 or > (2^32-1)*hLen outside FIPS-140-only mode (stdlib contract)", "static call graph (no interface calls on this path)", "package-level error variables are non-nil sentinels"},
 	})
-	tech("C16", "call-graph enumeration of explicit panics + finite-domain partial evaluation of parameter guards and callee-precondition arguments")
+	tech("C16", "call-graph enumeration of explicit panics + interprocedural finite-domain evaluation of scrypt.Key on a boundary grid (guards, callee-precondition arguments, error nil-ness, division/make operands) compared with the RFC 7914 parameter domain")
 }
 
 // staticReach returns the functions of this module reachable from root through
@@ -60,103 +59,367 @@ func staticReach(root *ssa.Function) []*ssa.Function {
 	return order
 }
 
+// c16Sink: the standard-library PBKDF2 whose error the module turns into a
+// panic; keyLength is its argument #4.
+func c16Sink(cc *ssa.CallCommon) (int, bool) {
+	if cc == nil || cc.IsInvoke() {
+		return 0, false
+	}
+	if calleeName(cc) == "crypto/pbkdf2.Key" {
+		return 4, true
+	}
+	return 0, false
+}
+
+// c16SinkGuarded decides whether an explicit panic is reached only when a
+// crypto/pbkdf2.Key call has returned a non-nil error: either the call sits
+// in the panicking function and every path to the panic crosses an
+// "err != nil" edge of its error result, or the panic is behind "e != nil" of
+// an error parameter e and every static call site (within fns) passes the
+// error result of such a call for e.
+func c16SinkGuarded(p *ssa.Panic, fns []*ssa.Function) bool {
+	f := p.Parent()
+	behind := func(no []edge) bool {
+		if len(no) == 0 {
+			return false
+		}
+		cut := edgeSet{}
+		cut.addAll(no)
+		return !pathFromEntry(p, cut)
+	}
+	isSinkErr := func(v ssa.Value) bool {
+		ex, ok := v.(*ssa.Extract)
+		if !ok {
+			return false
+		}
+		call, ok := ex.Tuple.(*ssa.Call)
+		if !ok {
+			return false
+		}
+		_, isS := c16Sink(&call.Call)
+		return isS && ex.Index == call.Call.Signature().Results().Len()-1
+	}
+	for _, ci := range calls(f, func(string) bool { return true }) {
+		call, ok := ci.(*ssa.Call)
+		if !ok {
+			continue
+		}
+		if _, isS := c16Sink(&call.Call); !isS {
+			continue
+		}
+		if _, no := errSuccessEdges(call); behind(no) {
+			return true
+		}
+	}
+	for i, prm := range f.Params {
+		if !c16IsInterface(prm.Type()) {
+			continue
+		}
+		if _, no := edgesWhere(prm, isNil); !behind(no) {
+			continue
+		}
+		sites, good := 0, true
+		for _, g := range fns {
+			allInstrs(g, func(in ssa.Instruction) {
+				cc := callCommon(in)
+				if cc == nil || cc.StaticCallee() != f {
+					return
+				}
+				sites++
+				if i >= len(cc.Args) || !isSinkErr(cc.Args[i]) {
+					good = false
+				}
+			})
+		}
+		if sites > 0 && good {
+			return true
+		}
+	}
+	return false
+}
+
+type c16Class struct {
+	name string
+	in   func(N, r, p, k int64) bool
+}
+
 func runC16(c *Ctx) {
 	key := c.fn("scrypt", "Key")
 	if key == nil {
 		return
 	}
-	// (1) explicit panics reachable
-	var sites []string
-	for _, f := range staticReach(key) {
-		for _, p := range panicsOf(f) {
-			sites = append(sites, short(f.String())+": "+panicText(p))
-		}
-	}
-	sort.Strings(sites)
-	allowed := map[string]bool{"pbkdf2.Key: ": true}
-	for _, s := range sites {
-		if allowed[s] {
-			c.ok("C16.panic-site", s, nil, "tabled: discharged by the argument-range rule on every call from scrypt.Key")
-		} else {
-			c.fail("C16.panic-site", s, nil, "explicit panic reachable from scrypt.Key that is not in the checker's table")
-		}
-	}
-	if len(sites) == 0 {
-		c.fail("C16.panic-site", "pbkdf2.Key", nil, "expected panic site in x/crypto/pbkdf2.Key not found (anchor lost)")
-	}
-
-	// (2) pbkdf2.Key argument range on a grid of boundary values
-	callsP := callsNamed(key, "pbkdf2.Key")
-	if len(callsP) != 2 {
-		c.fail("C16.calls", "scrypt.Key -> pbkdf2.Key", key, fmt.Sprintf("expected 2 calls of pbkdf2.Key, found %d", len(callsP)))
-	}
 	const maxInt = int64(^uint64(0) >> 1)
 	const maxDK = (1<<32 - 1) * 32
+	inRange := func(n int64) bool { return n > 0 && n <= maxDK }
+
+	// the four integer parameters, by position in the exported signature
+	var ips []*ssa.Parameter
+	for _, p := range key.Params {
+		if c16IntType(p.Type()) {
+			ips = append(ips, p)
+		}
+	}
+	if len(ips) != 4 || len(key.Params) != 6 {
+		c.fail("anchor", "scrypt.Key parameters", key, "scrypt.Key no longer has the signature (password, salt []byte, N, r, p, keyLen int)")
+		return
+	}
+	var ipIdx [4]int
+	for j, ip := range ips {
+		for i, p := range key.Params {
+			if p == ip {
+				ipIdx[j] = i
+			}
+		}
+	}
+
+	// ---- grid evaluation -------------------------------------------------
 	Ns := []int64{-2, 0, 1, 2, 3, 4, 1 << 15, 1 << 40, maxInt}
 	rs := []int64{-1, 0, 1, 8, 1 << 15, 1 << 29, 1 << 30, 1 << 40, maxInt / 128, maxInt/256 + 1, maxInt}
 	ps := []int64{-1, 0, 1, 2, 1 << 15, 1 << 29, 1 << 30, 1 << 40, maxInt}
 	ks := []int64{-1 << 40, -1, 0, 1, 32, 64, maxDK, maxDK + 1, maxInt}
-	pN, pr, pp, pk := param(key, "N"), param(key, "r"), param(key, "p"), param(key, "keyLen")
-	if pN == nil || pr == nil || pp == nil || pk == nil {
-		c.fail("anchor", "scrypt.Key parameters", key, "parameters N, r, p, keyLen not found")
-		return
+
+	// The documented domain of scrypt.Key (RFC 7914 section 2 and the doc comment),
+	// with exact integers: a point outside it must be answered with an error.
+	mulFits := func(lim int64, fs ...int64) bool { // product of positive factors <= lim
+		acc := int64(1)
+		for _, f := range fs {
+			if f <= 0 {
+				return true
+			}
+			if acc > lim/f {
+				return false
+			}
+			acc *= f
+		}
+		return acc <= lim
 	}
-	evals, reached := 0, 0
-	bad := map[int]string{}
-	errRetBad := ""
+	classes := []c16Class{
+		{"N not a power of two greater than 1", func(N, r, p, k int64) bool { return N <= 1 || N&(N-1) != 0 }},
+		{"r or p not positive", func(N, r, p, k int64) bool { return r <= 0 || p <= 0 }},
+		{"r*p >= 2^30 or a buffer size (128*r*p, 256*r, 128*r*N) beyond maxInt", func(N, r, p, k int64) bool {
+			if r <= 0 || p <= 0 {
+				return false
+			}
+			return !mulFits(1<<30-1, r, p) || !mulFits(maxInt, 128, r, p) || !mulFits(maxInt, 256, r) || (N > 0 && !mulFits(maxInt, 128, r, N))
+		}},
+		{"keyLen outside 1..(2^32-1)*32", func(N, r, p, k int64) bool { return k <= 0 || k > maxDK }},
+	}
+
+	it := &c16Interp{isSink: c16Sink, sinkOK: inRange}
+	it.interesting = c16Interesting(key, c16Sink)
+
+	evals, reached, acceptedValid := 0, 0, 0
+	sinkBad := [2]string{}
+	var sinkAt [2]ssa.Instruction
+	panicBad := map[*ssa.Panic]string{}
+	arithBad, gridBad := "", ""
+	var arithAt ssa.Instruction
+	acceptBad := make([]string, len(classes))
+	nilBad := make([]string, len(classes))
+	errRets := make([]int, len(classes))
+
 	for _, N := range Ns {
 		for _, r := range rs {
 			for _, p := range ps {
 				for _, k := range ks {
-					e := newEnv()
-					e.bind(pN, N)
-					e.bind(pr, r)
-					e.bind(pp, p)
-					e.bind(pk, k)
-					_, _, blocks := e.reachableExits(key, nil)
+					pt := fmt.Sprintf("N=%d r=%d p=%d keyLen=%d", N, r, p, k)
+					args := make([]optInt, len(key.Params))
+					for j, v := range []int64{N, r, p, k} {
+						args[ipIdx[j]] = optInt{v, true}
+					}
+					it.events = it.events[:0]
+					fr := it.run(key, c16Args{params: args}, 0, true, nil)
 					evals++
-					for i, ci := range callsP {
-						if !blocks[ci.Block()] {
+
+					// the documented domain: which clauses does this point violate?
+					var member []int
+					for ci, cl := range classes {
+						if cl.in(N, r, p, k) {
+							member = append(member, ci)
+						}
+					}
+					valid := len(member) == 0
+					want := [2]int64{128 * r * p, k} // RFC 7914 lengths (meaningful on valid points only)
+					seen := [2]int{}
+
+					// effects on the feasible blocks
+					nsink := 0
+					for _, ev := range it.events {
+						switch ev.kind {
+						case "sink":
+							slot := nsink
+							if slot > 1 {
+								slot = 1
+							}
+							nsink++
+							reached++
+							if sinkAt[slot] == nil {
+								sinkAt[slot] = ev.outer
+							}
+							if valid && ev.ok && ev.val == want[0] {
+								seen[0]++
+								continue
+							}
+							if valid && ev.ok && ev.val == want[1] {
+								seen[1]++
+								continue
+							}
+							if sinkBad[slot] != "" {
+								continue
+							}
+							if !ev.ok {
+								sinkBad[slot] = fmt.Sprintf("with %s the call is reachable and its key-length argument is not evaluable from N, r, p, keyLen", pt)
+							} else if valid {
+								sinkBad[slot] = fmt.Sprintf("with %s the call is reachable and its key length evaluates to %d; RFC 7914 asks for p*128*r = %d bytes of B and dkLen = %d bytes of output", pt, ev.val, want[0], want[1])
+								sinkAt[slot] = ev.outer
+							} else if !inRange(ev.val) {
+								sinkBad[slot] = fmt.Sprintf("with %s the call is reachable and its key length evaluates to %d (outside 1..%d): pbkdf2.Key panics", pt, ev.val, int64(maxDK))
+								sinkAt[slot] = ev.outer
+							}
+						case "panic":
+							pn := ev.at.(*ssa.Panic)
+							if panicBad[pn] == "" {
+								panicBad[pn] = fmt.Sprintf("with %s this panic is reachable", pt)
+							}
+						case "div0":
+							if arithBad == "" {
+								arithBad = fmt.Sprintf("with %s an integer division in %s is reachable with divisor 0 (runtime panic)", pt, c16Where(ev))
+								arithAt = ev.at
+							}
+						case "makeneg":
+							if arithBad == "" {
+								arithBad = fmt.Sprintf("with %s make() in %s is reachable with length %d (runtime panic)", pt, c16Where(ev), ev.val)
+								arithAt = ev.at
+							}
+						case "depth":
+							if gridBad == "" {
+								gridBad = fmt.Sprintf("call depth bound reached in %s: effects below are not evaluated", c16Where(ev))
+							}
+						}
+					}
+
+					// returns of Key that are feasible for this point
+					accepting, acceptWhy := false, ""
+					for _, ret := range returnsOf(key) {
+						if !fr.e.reach[ret.Block()] || len(ret.Results) != 2 {
 							continue
 						}
-						reached++
-						arg := ci.Common().Args[3]
-						v, ok := e.eval(arg)
-						if !ok {
-							if bad[i] == "" {
-								bad[i] = fmt.Sprintf("key-length argument not evaluable from N,r,p,keyLen (N=%d r=%d p=%d keyLen=%d)", N, r, p, k)
+						st := maybeNil
+						if n, ok := fr.e.eval(ret.Results[1]); ok {
+							if n == 0 {
+								st = definitelyNil
+							} else {
+								st = neverNil
 							}
-							continue
+						} else {
+							st = errNilness(ret.Results[1], ret.Block(), 0)
 						}
-						if v <= 0 || v > maxDK {
-							if bad[i] == "" {
-								bad[i] = fmt.Sprintf("with N=%d r=%d p=%d keyLen=%d the call is reachable and its key length evaluates to %d (outside 1..%d): pbkdf2.Key panics", N, r, p, k, v, int64(maxDK))
+						switch st {
+						case neverNil:
+							for _, ci := range member {
+								errRets[ci]++
+								if nilBad[ci] == "" && !c16NilSlice(fr.e, ret.Results[0], 0) {
+									nilBad[ci] = fmt.Sprintf("with %s the return at %s carries a non-nil error and a slice that is not nil", pt, c.posStr(ret.Pos()))
+								}
 							}
+						case definitelyNil:
+							accepting, acceptWhy = true, "returns a nil error"
+						default:
+							accepting = true
+							if acceptWhy == "" {
+								acceptWhy = "may return a nil error (error result at " + c.posStr(ret.Pos()) + " not decided)"
+							}
+						}
+					}
+					if valid {
+						if accepting {
+							acceptedValid++
+							if (seen[0] == 0 || seen[1] == 0) && gridBad == "" {
+								gridBad = fmt.Sprintf("with %s scrypt.Key succeeds but of the two PBKDF2 invocations of RFC 7914 (B: %d bytes, output: %d bytes) %d resp. %d are visible among the %d on the static call paths: anchor lost", pt, want[0], want[1], seen[0], seen[1], nsink)
+							}
+						}
+						continue
+					}
+					for _, ci := range member {
+						if accepting && acceptBad[ci] == "" {
+							acceptBad[ci] = fmt.Sprintf("with %s scrypt.Key %s", pt, acceptWhy)
 						}
 					}
 				}
 			}
 		}
 	}
-	for i, ci := range callsP {
-		name := fmt.Sprintf("scrypt.Key call#%d of pbkdf2.Key", i)
-		c.check(bad[i] == "", "C16.keylen-range", name, ci,
-			fmt.Sprintf("key length in 1..(2^32-1)*32 for every reachable combination (%d parameter combinations evaluated)", evals), bad[i])
-	}
-	c.check(reached > 0, "C16.grid", "scrypt.Key grid", key, fmt.Sprintf("%d reachable call evaluations", reached), "no grid point reaches pbkdf2.Key: the evaluation is vacuous")
 
-	// (3) error returns carry a nil slice
-	for _, r := range returnsOf(key) {
-		if len(r.Results) != 2 {
-			continue
+	// (2) key length handed to crypto/pbkdf2.Key, by role of the invocation
+	roles := []string{"first PBKDF2 invocation reached from scrypt.Key (B = PBKDF2(P, S, 1, p*128*r))", "final PBKDF2 invocation reached from scrypt.Key (DK = PBKDF2(P, B, 1, dkLen))"}
+	for i, role := range roles {
+		var at poser = key
+		if sinkAt[i] != nil {
+			at = sinkAt[i]
 		}
-		if errNilness(r.Results[1], r.Block(), 0) == neverNil {
-			if !isNilConst(r.Results[0]) {
-				errRetBad = "a return with a non-nil error returns a non-nil slice"
-				c.fail("C16.err-nil-slice", "scrypt.Key error return", r, errRetBad)
-			} else {
-				c.ok("C16.err-nil-slice", "scrypt.Key error return @"+c.posStr(r.Pos()), r, "nil slice with error")
+		bad := sinkBad[i]
+		if bad == "" && sinkAt[i] == nil {
+			bad = "no grid point reaches this invocation: anchor lost"
+		}
+		c.check(bad == "", "C16.keylen-range", role, at,
+			fmt.Sprintf("key length is the RFC 7914 value on every accepted point of the documented domain and lies in 1..(2^32-1)*32 wherever the call is reachable (%d parameter combinations evaluated)", evals), bad)
+	}
+	if gridBad == "" && (reached == 0 || acceptedValid == 0) {
+		gridBad = "no grid point reaches crypto/pbkdf2.Key: the evaluation is vacuous"
+	}
+	c.check(gridBad == "", "C16.grid", "scrypt.Key grid", key, fmt.Sprintf("%d reachable PBKDF2 invocations over %d accepted points, %d frames evaluated", reached, acceptedValid, it.frames), gridBad)
+
+	// (1) explicit panics statically reachable from Key
+	fns := staticReach(key)
+	nsites := 0
+	for _, f := range fns {
+		for _, p := range panicsOf(f) {
+			nsites++
+			site := short(f.String()) + ": " + panicText(p)
+			switch {
+			case !c16SinkGuarded(p, fns):
+				c.fail("C16.panic-site", site, p, "explicit panic reachable from scrypt.Key that is not confined to a failed crypto/pbkdf2.Key call")
+			case panicBad[p] != "":
+				c.fail("C16.panic-site", site, p, panicBad[p]+": crypto/pbkdf2.Key is called with a key length for which it returns an error")
+			default:
+				c.ok("C16.panic-site", site, p, "reached only when crypto/pbkdf2.Key fails; infeasible for every grid point")
 			}
 		}
 	}
+	if nsites == 0 {
+		c.fail("C16.panic-site", "pbkdf2.Key", nil, "expected panic site behind crypto/pbkdf2.Key's error not found (anchor lost)")
+	}
+
+	// (4) implicit arithmetic panics in the evaluated frames
+	c.check(arithBad == "", "C16.arith-panic", "scrypt.Key and its helpers", orPoser(arithAt, key), "no feasible division by zero or negative make length on the grid", arithBad)
+
+	// (5) parameters outside the documented domain are answered with an error
+	for ci, cl := range classes {
+		c.check(acceptBad[ci] == "", "C16.rejects-invalid", cl.name, key, "every such grid point ends in an error return", acceptBad[ci]+" although "+cl.name)
+	}
+
+	// (3) error returns carry a nil slice
+	for ci, cl := range classes {
+		bad := nilBad[ci]
+		if bad == "" && errRets[ci] == 0 {
+			bad = "no grid point of this class reaches an error return"
+		}
+		c.check(bad == "", "C16.err-nil-slice", "error returns for "+cl.name, key, fmt.Sprintf("nil slice with the error (%d feasible error returns)", errRets[ci]), bad)
+	}
+	static := ""
+	var staticAt poser = key
+	for _, r := range returnsOf(key) {
+		if len(r.Results) == 2 && errNilness(r.Results[1], r.Block(), 0) == neverNil && !c16NilSlice(nil, r.Results[0], 0) {
+			static = "a return with a non-nil error returns a non-nil slice"
+			staticAt = r
+		}
+	}
+	c.check(static == "", "C16.err-nil-slice", "scrypt.Key returns whose error is never nil", staticAt, "nil slice with error", static)
+}
+
+func orPoser(in ssa.Instruction, def poser) poser {
+	if in == nil {
+		return def
+	}
+	return in
 }
